@@ -6,6 +6,7 @@ mod closures;
 mod dir;
 mod ebrmon;
 mod fam_chain;
+mod fam_client;
 mod fam_list;
 mod fam_queue;
 mod fam_sweep;
@@ -72,7 +73,7 @@ fn main() {
         Some("selftest") => {
             // determinism on a sample: every family, each seed twice, same event hash
             let n: u64 = args.get(2).and_then(|s| s.parse().ok()).unwrap_or(8);
-            let fams = ["rc-mixed", "rc-weak", "rc-cells", "rc-wcells", "rc-bulk", "ebr", "ebr-churn", "ebr-longcs", "ebr-private", "guards", "tls", "dir-t1", "dir-t2", "dir-t3", "dir-t4", "dir-t5", "dir-t6", "dir-t7", "dir-t8", "dir-w", "dir-c", "queue", "list", "chain", "chain-weak", "agesweep"];
+            let fams = ["rc-mixed", "rc-weak", "rc-cells", "rc-wcells", "rc-bulk", "ebr", "ebr-churn", "ebr-longcs", "ebr-private", "guards", "tls", "dir-t1", "dir-t2", "dir-t3", "dir-t4", "dir-t5", "dir-t6", "dir-t7", "dir-t8", "dir-w", "dir-c", "client", "queue", "list", "chain", "chain-weak", "agesweep"];
             let mut bad = 0;
             let mut total = 0;
             for f in fams {
